@@ -113,7 +113,12 @@ type DumpItem struct {
 	Vector   []float32
 	Metadata map[string]string
 }
-type DumpRaft struct{ Term, Commit, Applied, Lead uint64 }
+type DumpRaft struct {
+	Term, Commit, Applied, Lead uint64
+	// what the group's log store holds, read through the store by the server itself
+	DurableTerm, DurableVote, DurableCommit, SnapshotIndex, FirstIndex, LastIndex uint64
+	DurableErr                                                                    string
+}
 type DumpPartition struct {
 	Loaded  bool
 	Raft    *DumpRaft
